@@ -165,6 +165,10 @@ K_READER = [
     K("reader_read_contract", "impl Reader for Read meets the T1 contract (remain/peek/peek_n/next/next_n/eat/backward/set_index/at/slice_unchecked/index), all indices, slice length <= 8",
       ["reader::<Read as Reader>::*"], kind="bounded(slice length <= 8)"),
 ]
+K_POSITION = [
+    K("position_from_index_contract", "Position::from_index == (1 + newlines before offset, bytes since last newline), black-box, inputs <= 6 bytes, every offset",
+      ["reader::Position::from_index"], kind="bounded(input length <= 6)"),
+]
 K_STRBITS = [
     K("string_bits_all", "get_string_bits == scalar in-string scan with both carries, all 64-byte blocks x 4 carry states", ["parser::get_string_bits"], timeout=600),
 ]
@@ -239,7 +243,7 @@ PROPS["C12"] = {
 PROPS["C20"] = {
     "level": "proof",
     "verus": [{"unit": "errors", "rlimit": 200}, {"unit": "iterators", "rlimit": 200}],
-    "kani": [],
+    "kani": K_POSITION,
     "syntactic": [{"name": "not-found codes are constructed only in get* functions", "fn": synt.notfound_only_in_get}],
     "trusted_base": [T1, T4, T6, VSTD,
                      "Reader::check_utf8_final / invalid_utf8: the offset reported by simdutf8 is <= len (T4) — assumed as the trait contract `err_ok`",
